@@ -28,6 +28,7 @@ type skInput struct {
 	Seed    int64    `json:"seed"`
 	Prefill []skOp   `json:"prefill,omitempty"` // run by thread 0's program prefix, sequentially (it is simply part of thread 0... kept empty)
 	MM      bool     `json:"mm"`
+	Stall   bool     `json:"stall,omitempty"` // scheduling heuristic: hold back a thread that has just marked a node
 }
 
 var skAllPoints = []int{
@@ -47,11 +48,27 @@ func skGen(r *rand.Rand, iterMode bool) *skInput {
 		}
 		return l
 	}
+	// flavour: adjacent keys all present, then mostly deletes/lookups racing on them (windows in
+	// which several neighbouring nodes are marked but not yet unlinked)
+	crowded := !iterMode && r.Intn(3) == 0
+	in.Stall = crowded && r.Intn(2) == 0
+	if crowded {
+		nt = 3 + r.Intn(2)
+		nk = 3 + r.Intn(2)
+		in.Sticky = []int{0, 20, 40}[r.Intn(3)]
+	}
 	for t := 0; t < nt; t++ {
 		var prog []skOp
 		m := 1 + r.Intn(3)
 		if t == 0 {
 			// thread 0 first builds some content
+			if crowded {
+				for k := 1; k <= nk; k++ {
+					prog = append(prog, skOp{Op: "ins", K: 10 * k, Want: lev()})
+				}
+				in.Progs = append(in.Progs, prog)
+				continue
+			}
 			for k := 0; k < 1+r.Intn(3); k++ {
 				prog = append(prog, skOp{Op: "ins", K: 10 * (1 + r.Intn(nk)), Want: lev()})
 			}
@@ -67,6 +84,17 @@ func skGen(r *rand.Rand, iterMode bool) *skInput {
 		for k := 0; k < m; k++ {
 			x := r.Intn(100)
 			key := 10 * (1 + r.Intn(nk))
+			if crowded {
+				switch {
+				case x < 55:
+					prog = append(prog, skOp{Op: "del", K: key})
+				case x < 80:
+					prog = append(prog, skOp{Op: "look", K: key})
+				default:
+					prog = append(prog, skOp{Op: "ins", K: key, Want: lev()})
+				}
+				continue
+			}
 			switch {
 			case x < 40:
 				prog = append(prog, skOp{Op: "ins", K: key, Want: lev()})
@@ -218,6 +246,41 @@ func skRun(in *skInput, sink *CaseSink, prop string) {
 		chooser = replayChooser(in.Choices)
 	} else {
 		chooser = randomChooser(r, in.Sticky)
+		if in.Stall {
+			// keep threads that have just set a delete mark away from their unlink pass for a while,
+			// so that several neighbouring nodes are marked but still linked at the same time
+			base := chooser
+			stalled := make([]int, nt)
+			lastLab := make([]int, nt)
+			prev := sch.OnStep
+			sch.OnStep = func(tid, label int) {
+				prev(tid, label)
+				if label == skiplist.VerifPtSdLoad && lastLab[tid] == skiplist.VerifPtSdCas && r.Intn(2) == 0 {
+					stalled[tid] = 10 + r.Intn(60) // marked, unlink pass not yet run
+				}
+				if label == skiplist.VerifPtSdLoad && lastLab[tid] != skiplist.VerifPtSdCas && lastLab[tid] != skiplist.VerifPtSdLoad && r.Intn(2) == 0 {
+					stalled[tid] = 10 + r.Intn(60) // node located, not yet marked
+				}
+				lastLab[tid] = label
+				for i := range stalled {
+					if stalled[i] > 0 && i != tid {
+						stalled[i]--
+					}
+				}
+			}
+			chooser = func(en []int) int {
+				var free []int
+				for _, e := range en {
+					if stalled[e] == 0 {
+						free = append(free, e)
+					}
+				}
+				if len(free) > 0 {
+					return base(free)
+				}
+				return base(en)
+			}
+		}
 	}
 	sch.Run(nt, chooser, 3000)
 	finished := sch.AllFinished()
